@@ -23,6 +23,9 @@ type DbSqlite struct {
 	db        *sql.DB
 	meta      Meta
 	writeLock sync.Mutex
+	// rootLock protects meta.RootID, which is replaced when a new root node
+	// is inserted and is read by request handlers that do not hold writeLock
+	rootLock sync.RWMutex
 }
 
 // Meta contains metadata about the database
@@ -590,7 +593,7 @@ func (sdb *DbSqlite) edgePoints(nodeID, parentID string, points data.Points) err
 		return fmt.Errorf("Error: edgePoints nodeID=parentID=%v", nodeID)
 	}
 
-	if nodeID == sdb.meta.RootID {
+	if nodeID == sdb.rootNodeID() {
 		for _, p := range points {
 			if p.Type == data.PointTypeTombstone && p.Value > 0 {
 				return fmt.Errorf("Error, can't delete root node")
@@ -854,7 +857,9 @@ NextPin:
 				rollback()
 				return fmt.Errorf("Error update root id in meta: %w", err)
 			}
+			sdb.rootLock.Lock()
 			sdb.meta.RootID = nodeID
+			sdb.rootLock.Unlock()
 		}
 	}
 
@@ -1061,6 +1066,8 @@ func (sdb *DbSqlite) Close() error {
 }
 
 func (sdb *DbSqlite) rootNodeID() string {
+	sdb.rootLock.RLock()
+	defer sdb.rootLock.RUnlock()
 	return sdb.meta.RootID
 }
 
@@ -1083,7 +1090,7 @@ func (sdb *DbSqlite) getNodes(tx *sql.Tx, parent, id, typ string, includeDel boo
 	switch {
 	case parent == "root":
 		// return a single root node
-		q = fmt.Sprintf("SELECT * FROM edges WHERE down = '%v'", sdb.meta.RootID)
+		q = fmt.Sprintf("SELECT * FROM edges WHERE down = '%v'", sdb.rootNodeID())
 	case parent == "all" && id == "all":
 		return nil, errors.New("invalid combination of parent and id")
 	case parent == "all":
